@@ -38,7 +38,13 @@ func outcomeKey(b *vlib.Built) string {
 func c06Inner(c *vlib.Case) (*vlib.Violation, string) {
 	b := vlib.Build(c.Project)
 	defer b.Close()
-	return nil, outcomeKey(b)
+	k := outcomeKey(b)
+	if b.Out.OK() {
+		if js, err := b.Api.ToJson(); err == nil {
+			return nil, k + "\x01" + strconv.QuoteToASCII(string(js))
+		}
+	}
+	return nil, k
 }
 
 const c06Repeats = 6
@@ -58,7 +64,7 @@ func c06Oracle(c *vlib.Case) *vlib.Violation {
 			return nil // C01's business
 		}
 		js := ""
-		if b.Out.OK() && i <= 1 {
+		if b.Out.OK() {
 			j, _ := b.Api.ToJson()
 			js = string(j)
 		}
@@ -67,19 +73,45 @@ func c06Oracle(c *vlib.Case) *vlib.Violation {
 			first, firstJSON = k, js
 			continue
 		}
+		_ = firstJSON
 		if k != first {
 			detail := ""
+			class := c06DiffClass(first, k)
 			if strings.HasPrefix(k, "OK") && strings.HasPrefix(first, "OK") && js != "" {
 				d := firstDiffPos(firstJSON, js)
 				detail = fmt.Sprintf("\n first: %s\n now:   %s", around(firstJSON, d), around(js, d))
+				a, e1 := vlib.ParseOrdered([]byte(firstJSON))
+				b, e2 := vlib.ParseOrdered([]byte(js))
+				if e1 == nil && e2 == nil && a.StripExamples().Canon(false) == b.StripExamples().Canon(false) {
+					class = "catalog-example-only"
+					if hasRegexType(c.Project) {
+						class = "catalog-example-of-schema-using-regex-type"
+					}
+				}
 			}
-			return vlib.V("c06:in-process:"+c06DiffClass(first, k), "build #%d differs from build #0 of the same project:\n #0: %s\n #%d: %s%s", i, pretty(first), i, pretty(k), detail)
+			return vlib.V("c06:in-process:"+class, "build #%d differs from build #0 of the same project:\n #0: %s\n #%d: %s%s", i, pretty(first), i, pretty(k), detail)
 		}
 	}
 	// fresh process
 	_, info := vlib.SharedIso().Run(c)
+	otherJSON := ""
+	if i := strings.IndexByte(info, 1); i >= 0 {
+		otherJSON, _ = strconv.Unquote(info[i+1:])
+		info = info[:i]
+	}
 	if info != "" && info != first && !strings.HasPrefix(info, "CRASH") {
-		return vlib.V("c06:fresh-process:"+c06DiffClass(first, info), "a build in a fresh process differs:\n here:  %s\n there: %s", pretty(first), pretty(info))
+		class := c06DiffClass(first, info)
+		if otherJSON != "" && firstJSON != "" {
+			a, e1 := vlib.ParseOrdered([]byte(firstJSON))
+			b, e2 := vlib.ParseOrdered([]byte(otherJSON))
+			if e1 == nil && e2 == nil && a.StripExamples().Canon(false) == b.StripExamples().Canon(false) {
+				class = "catalog-example-only"
+				if hasRegexType(c.Project) {
+					class = "catalog-example-of-schema-using-regex-type"
+				}
+			}
+		}
+		return vlib.V("c06:fresh-process:"+class, "a build in a fresh process differs:\n here:  %s\n there: %s", pretty(first), pretty(info))
 	}
 	return nil
 }
@@ -202,6 +234,9 @@ var c06Stream = &vlib.Check{
 			doc, f := genMultiFault(r)
 			return &vlib.Case{Project: vlib.SingleFile(toEOL(doc, r)), Params: map[string]any{"faults": f}}
 		case 2:
+			if genModelDoc != nil && vlib.Chance(r, 1, 2) {
+				return &vlib.Case{Project: genModelDoc(r)}
+			}
 			return &vlib.Case{Project: genAccepted(r)}
 		default:
 			return &vlib.Case{Project: genCandidate(r)}
